@@ -39,8 +39,14 @@ def gen_config(rng, n, with_source=False):
     c = []
     facts = {"per_frame": False, "ranges": []}
     pf = lambda: facts.__setitem__("per_frame", True)
+    # mostly-valid configs: in clean mode every range, index, preset id and value is legal, so that the run reaches
+    # the list-wide passes and their interactions (remove x ranges x duplicate) instead of an early error
+    clean = rng.chance(3, 5)
+    facts["clean"] = clean
+    _gr = gen_range
+    gr = (lambda r, k: _gr(r, k, allow_bad=False)) if clean else _gr
     if rng.chance(1, 6):
-        m = rng.choice([0, 1, 2, 3, 4, 5, 6, 255])
+        m = rng.choice([0, 1, 2, 3, 4, 5, 6, 255]) if not clean else rng.choice([0, 0, 2, 3])
         j["mode"] = m; c.append("mode=%d" % m)
         if m:
             pf()
@@ -49,11 +55,11 @@ def gen_config(rng, n, with_source=False):
     if rng.chance(1, 10):
         j["remove_mapping"] = True; c.append("rmmap=1"); pf()
     if rng.chance(1, 8):
-        v = rng.choice([0, 7, 62, 4095, 4096, 5000]); j["min_pq"] = v; c.append("min=%d" % v); pf()
+        v = rng.choice([0, 7, 62, 4095, 4096, 5000] if not clean else [0, 7, 62, 4095]); j["min_pq"] = v; c.append("min=%d" % v); pf()
     if rng.chance(1, 8):
-        v = rng.choice([3079, 3696, 4095, 4096, 65535]); j["max_pq"] = v; c.append("max=%d" % v); pf()
+        v = rng.choice([3079, 3696, 4095, 4096, 65535] if not clean else [3079, 3696, 4095]); j["max_pq"] = v; c.append("max=%d" % v); pf()
     if rng.chance(1, 8):
-        v = [rng.choice([1000, 4000, 10000, 10001]), rng.choice([1, 50, 10001]), rng.below(10001), rng.below(10001)]
+        v = [rng.choice([1000, 4000, 10000, 10001] if not clean else [1000, 4000, 10000]), rng.choice([1, 50, 10001] if not clean else [1, 50]), rng.below(10001), rng.below(10001)]
         j["level6"] = dict(zip(["max_display_mastering_luminance", "min_display_mastering_luminance",
                                 "max_content_light_level", "max_frame_average_light_level"], v))
         c.append("l6=" + ":".join(map(str, v))); pf()
@@ -62,7 +68,7 @@ def gen_config(rng, n, with_source=False):
         j["level9"] = L9_ALIASES.get(i, L9_NAMES[i]) if rng.chance(1, 2) else L9_NAMES[i]
         c.append("l9=%d" % i); pf()
     if rng.chance(1, 10):
-        ct, wp, ref = rng.choice([0, 1, 15, 16]), rng.choice([0, 15, 16]), rng.below(2)
+        ct, wp, ref = rng.choice([0, 1, 15, 16] if not clean else [0, 1, 15]), rng.choice([0, 15, 16] if not clean else [0, 15]), rng.below(2)
         j["level11"] = {"content_type": ct, "whitepoint": wp, "reference_mode_flag": bool(ref)}
         c.append("l11=%d:%d:%d:0:0" % (ct, wp, ref)); pf()
     if rng.chance(1, 12):
@@ -73,7 +79,7 @@ def gen_config(rng, n, with_source=False):
         cuts = {}
         order = []
         for _ in range(1 + rng.below(4)):
-            k = rng.choice(["all", "ALL", "All"]) if rng.chance(1, 8) else gen_range(rng, n)
+            k = rng.choice(["all", "ALL", "All"]) if rng.chance(1, 8) else gr(rng, n)
             v = rng.chance(1, 2)
             if k not in cuts:
                 order.append(k)
@@ -95,7 +101,7 @@ def gen_config(rng, n, with_source=False):
             ids = [0, 1, 2, 3][: 1 + rng.below(4)]
             ps = []
             for i in ids:
-                m = rng.choice([300, 8191, 8192])
+                m = rng.choice([300, 8191, 8192] if not clean else [300, 8191])
                 ps.append({"id": i, "left": rng.below(m + 1), "right": rng.below(m + 1), "top": rng.below(300), "bottom": rng.below(300)})
             aa["presets"] = ps
             c.append("presets=" + "|".join("%d:%d:%d:%d:%d" % (p["id"], p["left"], p["right"], p["top"], p["bottom"]) for p in ps))
@@ -103,8 +109,8 @@ def gen_config(rng, n, with_source=False):
             ed = {}
             order = []
             for _ in range(1 + rng.below(5)):
-                k = rng.choice(["all", "ALL"]) if rng.chance(1, 10) else gen_range(rng, n)
-                v = rng.choice([0, 1, 2, 3, 4, 9])
+                k = rng.choice(["all", "ALL"]) if rng.chance(1, 10) else gr(rng, n)
+                v = rng.choice([0, 1, 2, 3, 4, 9]) if not (clean and "presets" in aa) else rng.choice([p["id"] for p in aa["presets"]])
                 if k not in ed:
                     order.append(k)
                 ed[k] = v
@@ -118,13 +124,13 @@ def gen_config(rng, n, with_source=False):
     if rng.chance(1, 4):
         rm = []
         for _ in range(1 + rng.below(3)):
-            rm.append(gen_range(rng, n) if rng.chance(2, 3) else rng.choice([str(rng.below(n + 1)), str(n - 1), "x", "+0"]))
+            rm.append(gr(rng, n) if rng.chance(2, 3) else (rng.choice([str(rng.below(n + 1)), str(n - 1), "x", "+0"]) if not clean else str(rng.below(n))))
         j["remove"] = rm; c.append("remove=" + "|".join(rm))
         facts["remove"] = rm
     if rng.chance(1, 4):
         dups = []
         for _ in range(1 + rng.below(3)):
-            dups.append({"source": rng.below(n + 1), "offset": rng.choice([0, n, n + 1, rng.below(n + 1)]), "length": rng.below(4)})
+            dups.append({"source": rng.below(n + 1) if not clean else rng.below(max(1, n)), "offset": rng.choice([0, n, n + 1, rng.below(n + 1)]) if not clean else rng.below(n + 1), "length": rng.below(4)})
         j["duplicate"] = dups; c.append("dup=" + "|".join("%d:%d:%d" % (d["source"], d["offset"], d["length"]) for d in dups))
         facts["dups"] = dups
     if with_source:
